@@ -50,4 +50,12 @@ CHECKS = {
                         "data races on globals.instance seen by the race detector belong to C07's finding and are not counted here"],
         "proved_vs_tested": "proved: inductive invariant of singleflightDo for every schedule, any number of goroutines and keys (no overlapping parses per key, hand-over of the leader's complete result, no reachable deadlock), at most one live cleaner, stop then restart starts exactly one; tested: model-guided deterministic replay of the real singleflightDo (every label as predicted), unguided delay-perturbed runs and full-path stress under the race detector",
     },
+    "C20": {
+        "lean_modules": ["Gomjml.Props.C20"],
+        "audit": ["Gomjml/Audit/C20.lean"],
+        "level": "proof",
+        "trusted": ["cobra flag parsing and the OS (exit codes, file system) are outside the Model", "the in-process mjml.Render call is the reference for 'the bytes the library returns'"],
+        "assumptions": ["whether --cache really enables the cache is not observable from outside a one-shot process (its effect on output is nil by C13)"],
+        "proved_vs_tested": "proved: the decision table of the compile command satisfies the four sentences of the property (success to file / stdout with exactly the library's bytes; any error: non-zero exit, stderr, file untouched); ticker argument positive for any duration; tested: the built binary over the full flag matrix, one fresh process per case, against the Lean decision model applied to the in-process library result",
+    },
 }
